@@ -9,18 +9,18 @@ ID = "C15"
 SWITCH_OFF = 6        # every 6th case runs with xfab.CHECKS switched off (results must not depend on it)
 RULE = ("one unit per space-group setting (all 237 in every run); per setting Hypothesis draws positions from the rational "
         "grid {0,1/8,1/6,1/4,1/3,3/8,1/2,5/8,2/3,3/4,5/6,7/8}^3 and from the families (x,x,z) (x,2x,z) (x,-x,z) (x,0,z) (x,x,x) "
-        "(x,y,z) with generic x,y,z = k/9973, shifted by integer lattice vectors in [-3,3], given as floats, called by name "
+        "(x,y,z) with generic x,y,z = k/9973, shifted by integer lattice vectors in [-3,3] (one case in three: [-2000,2000]), given as floats, called by name "
         "(incl. case/blank variants) or by number + cell_choice; thorough additionally enumerates the whole 1728-point grid per "
         "setting. Oracle: exact orbit size modulo 1 with Fractions. Non-trivial = position with a non-trivial stabiliser in a "
         "group with a non-symmetric rotation, or a coordinate not representable in binary (thirds, sixths)")
 ASSUMPTIONS = ["positions whose distinct exact images come closer than 1e-4 (modulo 1) are skipped and counted: the code's 1e-5 coincidence threshold makes their multiplicity threshold-dependent",
                "translations taken as exact 24ths (asserted by C04)"]
 GRID = [Fr(0), Fr(1, 8), Fr(1, 6), Fr(1, 4), Fr(1, 3), Fr(3, 8), Fr(1, 2), Fr(5, 8), Fr(2, 3), Fr(3, 4), Fr(5, 6), Fr(7, 8)]
-FAMILIES = ["grid", "grid", "grid", "xxz", "x2xz", "x-xz", "x0z", "xxx", "xyz", "mixed"]
+FAMILIES = ["grid"] * 7 + ["xxz", "x2xz", "x-xz", "x0z", "xxx", "xyz", "mixed"]
 
 
 def units(tier):
-    n = 40 if tier == "quick" else 300
+    n = 120 if tier == "quick" else 300
     return [(i, n) for i in range(len(GR.SETTINGS))]
 
 
@@ -29,7 +29,9 @@ def strategy(tier, unit):
     gen = st.integers(1, 9972)
     return st.fixed_dictionaries({
         "setting": st.just(unit), "family": st.sampled_from(FAMILIES), "g": st.tuples(gi, gi, gi).map(list),
-        "x": st.tuples(gen, gen, gen).map(list), "shift": st.tuples(st.integers(-3, 3), st.integers(-3, 3), st.integers(-3, 3)).map(list),
+        "x": st.tuples(gen, gen, gen).map(list), "shift": st.one_of(st.tuples(st.integers(-3, 3), st.integers(-3, 3), st.integers(-3, 3)), st.tuples(st.integers(-3, 3), st.integers(-3, 3), st.integers(-3, 3)),
+                           # an atom given many cells away from the origin (different shifts along the three axes)
+                           st.tuples(st.integers(-2000, 2000), st.integers(-2000, 2000), st.integers(-2000, 2000))).map(list),
         "byname": st.booleans(), "upper": st.booleans(), "blank": st.booleans(),
         "pos_as": st.sampled_from(["list", "array", "tuple", "int-if-integral"])})
 
